@@ -35,6 +35,11 @@ class C15(Spec):
 
     def same(self, case, impl, model):
         t = case.split()
+        if t[0] == "K" and any(x[0] == "z" for x in t[4].split(",") + t[5].split(",")):
+            # an answer followed at once by a reset: whether the client reads the answer before the reset destroys it, and whether the
+            # request handed over next is sent before the reset arrives, is the kernel's timing - decided by the oracle only (settled
+            # once, own response or rejected, no hang, no crash)
+            return True
         if t[0] == "K" and int(t[2]) > 1 and any(x[0] in "xXz" for x in t[4].split(",")) and not impl.startswith(("CRASH", "HANG")):
             # several connections and a server that closes some: WHICH queued request is handed to the closing connection
             # depends on which response arrives first. Compared exactly: the requests that start on fresh connections;
@@ -79,7 +84,7 @@ class C15(Spec):
                     if rng.random() < 0.3:
                         b += "@%d" % rng.choice([200, 300, 450])     # its own, shorter time-out
                 elif r < 0.33:
-                    b = rng.choice("xXz")
+                    b = rng.choice("xX")
                 elif r < 0.38 and k <= m:
                     b = rng.choice("UPSWD")      # (no request queued behind: bytes sent while the next one is in flight ARE its response)
                 else:
@@ -130,7 +135,9 @@ class C15(Spec):
                 return "request %d was answered by the server but its promise was %s (%s)" % (i, o, case)
             if b == "D" and o != "R":
                 return "request %d was answered with a response that cannot be parsed but its promise was %s (%s)" % (i, o, case)
-            if b in "adbcexgqQz" and o != "F%d" % i and not (closing and i >= int(t[2])):
+            if b == "z" and o in ("F%d" % i, "R"):
+                continue
+            if b in "adbcexgqQ" and o != "F%d" % i and not (closing and i >= int(t[2])):
                 return "request %d was answered by the server but its promise was %s (%s)" % (i, o, case)
             if b in "nlhHX" and (tmos[i] > 0 or b == "X") and o != "R":
                 return "request %d was not answered (%s) but its promise was %s (%s)" % (i, b, o, case)
